@@ -66,6 +66,10 @@ type SimP4 struct {
 	WriteLog []P4WriteRec
 	Invalid  []P4Invalid
 	KeyConflicts []P4KeyConflict
+	// OnWrite, when set, sees the summary of every Write RPC as the switch receives
+	// it and may add to its processing time (the simulator aims another event at a
+	// particular write being in flight)
+	OnWrite func(summary string) time.Duration
 	// NeedReconnect: set by Restart; the channel reads IDLE until it is used again
 	NeedReconnect bool
 	streams  []*p4Stream
@@ -582,6 +586,9 @@ func (s *SimP4) submitWrite(reqBytes []byte, inc int) *rpcCall {
 	}
 	failThis := (f.FailNth != 0 && s.Writes == f.FailNth) || (f.FailDen > 0 && sim.Ch.Bool(1, f.FailDen, "p4-fail"))
 	d1 := f.lat(sim)
+	if s.OnWrite != nil {
+		d1 += s.OnWrite(summarizeBytes(reqBytes))
+	}
 	if f.SlowDen > 0 && sim.Ch.Bool(1, f.SlowDen, "p4-slow") {
 		// one slow round trip: later writes of other handlers overtake this one
 		d1 += f.SlowBy
